@@ -292,8 +292,21 @@ class NearInt:
 _same_value_plain = same_value
 
 
+class Number:
+    """a number handed through from the request (int or float): compared by value."""
+
+    def __init__(self, v):
+        self.v = F(v)
+
+    def matches(self, x):
+        return isinstance(x, (int, float)) and not isinstance(x, bool) and F(x) == self.v
+
+    def __repr__(self):
+        return "num(%s)" % float(self.v)
+
+
 def same_value(want, got):           # noqa: F811  (extends the plain comparison with the matcher classes)
-    if isinstance(want, (AnyStr, NearInt)):
+    if isinstance(want, (AnyStr, NearInt, Number)):
         return want.matches(got)
     return _same_value_plain(want, got)
 
